@@ -195,13 +195,14 @@ def rows_harnesses(tier):
 # ------------------------------------------------------------------------------------------------------------------
 # C16 (connectivity part) for composite classes with their real conditioner networks
 # ------------------------------------------------------------------------------------------------------------------
-def grad_harness(name):
+def grad_harness(name, train=False):
     from .modules import grad_connected
-    make, xshape, methods = CONFIGS[name]
+    make, xshape, methods = (TRAIN_CONFIGS if train else CONFIGS)[name]
     methods = [m for m in methods if m in ("forward", "inverse", "log_prob", "log_prob_ctx", "transform_to_noise")]
 
     def run(h, ctx):
-        m = make(); m.eval()
+        ctx.notes["grad_alias"] = True
+        m = make(); m.train(train)
         for mname, mm in m.named_modules():
             for k, p in list(mm._parameters.items()):
                 if p is None: continue
@@ -225,7 +226,7 @@ def grad_harness(name):
             grad_connected(h, ctx, list(_leaves(v)))
 
     def native_call(h, inp):
-        torch.manual_seed(0); m = make().double().eval()
+        torch.manual_seed(0); m = make().double().train(train)
         with torch.no_grad():
             for p in m.parameters(): p.add_(torch.randn(p.shape, dtype=p.dtype) * 0.2)
         x = torch.tensor(np.asarray(inp["x"]), requires_grad=True); c = torch.tensor(np.asarray(inp["context"]), requires_grad=True)
@@ -248,12 +249,42 @@ def grad_harness(name):
                         moved = any(not torch.allclose(u, base, atol=1e-10) for u in t2[:1]) if t2 else False
                         l.copy_(old)
                     if moved and g is None: ok = False
-        return {"C16.value-dependencies-are-gradient-connected": ok}
+        # the gradient returned against central finite differences (inputs and parameters)
+        okfd = True
+        for meth in methods:
+            f = (lambda: m.log_prob(x, context=c)) if meth == "log_prob_ctx" else (lambda: getattr(m, meth)(x))
+            scal = lambda: sum(t.sum() for t in _leaves(f()) if t.dtype.is_floating_point)
+            leaves = [x] + [p_ for p_ in m.parameters()]
+            grads = torch.autograd.grad(scal(), leaves, allow_unused=True)
+            for l, g in zip(leaves, grads):
+                flat = l.detach().reshape(-1)
+                for k in range(min(flat.numel(), 6)):
+                    with torch.no_grad():
+                        old = float(flat[k]); e_ = 1e-6
+                        l.reshape(-1)[k] = old + e_; up = float(scal())
+                        l.reshape(-1)[k] = old - e_; dn = float(scal())
+                        l.reshape(-1)[k] = old
+                    fd = (up - dn) / (2 * e_)
+                    ag = 0.0 if g is None else float(g.reshape(-1)[k])
+                    if abs(fd - ag) > 1e-4 * (1 + abs(fd)):
+                        okfd = False
+        return {"C16.value-dependencies-are-gradient-connected": ok, "C16.no-value-dependence-through-a-gradient-cut": okfd}
     hn = Harness(f"grad_{name}[]", run, post, native_call=native_call, native_clauses=native_clauses,
                  sample=lambda h, rng: {"x": rng.uniform(0.1, 0.9, size=xshape), "context": rng.normal(size=(xshape[0], 4))}, functions=[], check_defined=False)
     hn.native_float32 = False
+    # the data-dependent initialisation of ActNorm writes batch statistics into the parameters through .data: by design the first batch is
+    # not differentiated through its own statistics
+    hn.cuts_allowed = name.startswith("ActNorm_train_first_batch")
     return hn
 
 
+TRAIN_CONFIGS = {
+    "BatchNorm_train": (lambda: TR.BatchNorm(2), (3, 2), ("forward",)),
+    "ActNorm_train_first_batch": (lambda: TR.ActNorm(2), (3, 2), ("forward",)),
+    "SimpleRealNVP_bn_train": (lambda: SimpleRealNVP(2, 2, num_layers=1, num_blocks_per_layer=1, batch_norm_between_layers=True), (3, 2), ("log_prob",)),
+}
+
+
 def grad_harnesses(tier):
-    return [grad_harness(n) for n in CONFIGS if any(m in ("forward", "inverse", "log_prob", "log_prob_ctx") for m in CONFIGS[n][2])]
+    return [grad_harness(n) for n in CONFIGS if any(m in ("forward", "inverse", "log_prob", "log_prob_ctx") for m in CONFIGS[n][2])] + \
+           [grad_harness(n, train=True) for n in TRAIN_CONFIGS]
